@@ -2155,6 +2155,161 @@ fn jump_in_builder_grid() -> Vec<(String, String, String)> {
     v
 }
 
+/// `n` constants of mixed kinds (integers, floats, strings) defined in front of a program, so that every constant
+/// the program itself adds gets an index >= n: with n around 2^7 / 2^14 the variable-length operands need 2 / 3 bytes.
+fn const_pool_prelude(n: usize) -> String {
+    if n == 0 {
+        return String::new();
+    }
+    let xs: Vec<String> = (0..n.saturating_sub(1)).map(|i| match i % 3 {
+        0 => format!("{}", 7_000_000 + i),
+        1 => format!("{}.25", 7_000_000 + i),
+        _ => format!("'zc{}'", i),
+    }).collect();
+    // (`zc` itself is the n-th constant)
+    format!("zc = [{}]\n", xs.join(", "))
+}
+
+/// One program that uses every instruction with a variable-length operand (constant / key / type-name / identifier
+/// indices, size hints, format widths) — map patterns in match arms, catch, let, for and function arguments, access and
+/// access-assign, meta keys, import / export, string / number constants, non-locals, type checks, formatted
+/// interpolation — behind constant pools of different sizes, at top level and inside a function.
+/// Oracle: wfChunk, the decoder comparison operand for operand (flush), and the same VALUE as with an empty pool.
+/// (label, program, pool size, runs by value)
+fn varint_programs() -> Vec<(String, String, usize, bool)> {
+    let body = |long: usize| -> String {
+        let long_lit = "w".repeat(long);
+        format!(concat!(
+            "m = {{alpha: 1, beta: 2, @meta tag: 'T'}}\n",
+            "a1 = m.alpha\n",
+            "m.beta = 5\n",
+            "m.gamma = 'g'\n",
+            "s1 = 'fresh string'\n",
+            "n1 = 123456789\n",
+            "f1 = 2.71828\n",
+            "k = size m\n",
+            "let t1: Number = n1\n",
+            "let t2: String? = null\n",
+            "chk = |v|\n",
+            "  match v\n",
+            "    {{alpha, delta}} then 'ad{{alpha}}{{delta}}'\n",
+            "    {{alpha}} then 'a{{alpha}}'\n",
+            "    x: Number then 'num'\n",
+            "    y: String? then 'optstr'\n",
+            "    else 'else'\n",
+            "r1 = chk m\n",
+            "r2 = chk 5\n",
+            "r3 = chk null\n",
+            "r4 = chk [1]\n",
+            "r5 = chk {{omega: 1}}\n",
+            "g = |{{beta}}, z: Number = 4| beta + z\n",
+            "r6 = g m\n",
+            "r7 = 0\n",
+            "for {{alpha, beta}} in [m]\n",
+            "  r7 = alpha + beta\n",
+            "let {{gamma}} = m\n",
+            "r8 = try\n",
+            "  throw m\n",
+            "catch {{nosuch}}\n",
+            "  'wrong'\n",
+            "catch {{alpha}}\n",
+            "  'caught{{alpha}}'\n",
+            "export eta = 7\n",
+            "from m import alpha as imported_alpha\n",
+            "fm = '{{n1:_>12}}|{{f1:9.3}}|{{n1:<130}}|{{n1:*^9}}|{long_lit}{{s1}}'\n",
+            "(a1, m.beta, s1, n1, f1, k, r1, r2, r3, r4, r5, r6, r7, gamma, r8, eta, imported_alpha, size(fm), koto.type(m))\n"),
+            long_lit = long_lit)
+    };
+    let mut v = vec![];
+    for &n in &[0usize, 100, 126, 127, 128, 129, 130, 200, 16380, 16383, 16384, 16385, 16400] {
+        // the long literal pushes the StringStart size hint over the same boundaries
+        let long = if n >= 16000 { 17000 } else if n >= 100 { 300 } else { 3 };
+        let pre = const_pool_prelude(n);
+        v.push((format!("varint:top:{}", n), format!("{}{}", pre, body(long)), n, true));
+        let indented: String = body(long).lines().map(|l| format!("  {}\n", l)).collect();
+        // `export` / `let` inside a function are fine; the result is the function's value
+        v.push((format!("varint:fn:{}", n), format!("{}main = ||\n{}main()\n", pre, indented), n, true));
+        // compile-only: `debug` (prints) and format widths / precisions beyond one byte
+        v.push((format!("varint:compile-only:{}", n), format!("{}x = 1.5\ndebug x\ny = '{{x:200}}{{x:.200}}{{x:20000.17000}}'\n", pre), n, false));
+    }
+    v
+}
+
+/// Literals of DIFFERENT kinds that collide under a plausible de-duplication key — an integer and a float with the
+/// same 64 bits, a float and an integer with the same value, a string and an identifier with the same text, integers on
+/// both sides of the small-int / pooled boundary — in one chunk, in both orders. Each program checks itself:
+/// (label, program, expected worker reply)
+fn constant_collision_programs() -> Vec<(String, String, String)> {
+    let mut v = vec![];
+    let floats: [f64; 10] = [0.5, 1.0, 2.0, 1.5, 0.1, 3.25, 1e10, 255.0, 256.0, 1e-3];
+    for int_first in [false, true] {
+        let mut p = String::new();
+        let mut expect = vec![];
+        for (k, f) in floats.iter().enumerate() {
+            let bits = f.to_bits() as i64;
+            let fl = format!("{:?}", f);
+            let (a, b) = (format!("f{} = {}\n", k, fl), format!("i{} = {}\n", k, bits));
+            if int_first { p += &b; p += &a; } else { p += &a; p += &b; }
+            expect.push(kvh::canon::float(*f));
+            expect.push(format!("i{}", bits));
+            expect.push(format!("i{}", bits + 1));
+        }
+        let items: Vec<String> = (0..floats.len()).map(|k| format!("f{}, i{}, i{} + 1", k, k, k)).collect();
+        p += &format!("({})\n", items.join(", "));
+        v.push((format!("const-collision:bits:{}", if int_first { "int-first" } else { "float-first" }), p, format!("value (t {})", expect.join(" "))));
+    }
+    // same value, different kind; small ints next to pooled ints; negative numbers
+    let p = "a = (255, 256, 255.0, 256.0, -255, -256, -255.0, -256.0, 0, 0.0, 1, 1.0, 65536, 65536.0)\n(a, koto.type(a[2]), koto.type(a[1]), koto.type(a[13]), koto.type(a[12]))\n";
+    let e = format!("value (t (t i255 i256 {} {} i-255 i-256 {} {} i0 {} i1 {} i65536 {}) s{} s{} s{} s{})",
+        kvh::canon::float(255.0), kvh::canon::float(256.0), kvh::canon::float(-255.0), kvh::canon::float(-256.0), kvh::canon::float(0.0), kvh::canon::float(1.0), kvh::canon::float(65536.0),
+        kvh::hex(b"Float"), kvh::hex(b"Int"), kvh::hex(b"Float"), kvh::hex(b"Int"));
+    v.push(("const-collision:value".into(), p.into(), e));
+    // a string and an identifier / key / type name with the same text share one constant (same kind: allowed)
+    let p = "size_ = 'size'\nm = {size: 3, Number: 'n'}\nlet x: Number = m.size\n(size_, size([1, 2]), m.size, m.Number, 'Number', x)\n";
+    let e = format!("value (t s{} i2 i3 s{} s{} i3)", kvh::hex(b"size"), kvh::hex(b"n"), kvh::hex(b"Number"));
+    v.push(("const-collision:text".into(), p.into(), e));
+    // digits as a string, as an integer and as a float
+    let p = "('123456', 123456, 123456.0, '1.5', 1.5, '4602678819172646912', 4602678819172646912, 0.5)\n";
+    let e = format!("value (t s{} i123456 {} s{} {} s{} i4602678819172646912 {})", kvh::hex(b"123456"), kvh::canon::float(123456.0), kvh::hex(b"1.5"), kvh::canon::float(1.5),
+        kvh::hex(b"4602678819172646912"), kvh::canon::float(0.5));
+    v.push(("const-collision:digits".into(), p.into(), e));
+    v
+}
+
+/// Widths (in bytes) of the variable-length operands in a chunk, per opcode: instruction length minus its length with
+/// one-byte operands. (`StringPush`: the extra bytes of all its optional operands together.)
+fn varint_widths(chunk: &Ptr<Chunk>, out: &mut BTreeMap<String, std::collections::BTreeSet<usize>>) {
+    let mut reader = InstructionReader::new(chunk.clone());
+    let bytes = chunk.bytes.as_slice();
+    loop {
+        let ip = reader.ip;
+        match reader.next() {
+            None | Some(Instruction::Error { .. }) => break,
+            Some(_) => {
+                let op = Op::from(bytes[ip]);
+                let len = reader.ip - ip;
+                let base = match op {
+                    Op::LoadFloat | Op::LoadInt | Op::LoadString | Op::LoadNonLocal | Op::MakeMap | Op::Debug | Op::AssertType | Op::AssertOptionalType => Some(3),
+                    Op::SequenceStart | Op::StringStart => Some(2),
+                    Op::Access => Some(4),
+                    Op::TryAccess => Some(6),
+                    Op::CheckType | Op::CheckOptionalType => Some(5),
+                    Op::StringPush => {
+                        let flags = bytes.get(ip + 2).copied().unwrap_or(0);
+                        Some(3 + ((flags >> 2) & 0xf).count_ones() as usize)
+                    }
+                    _ => None,
+                };
+                if let Some(b) = base {
+                    if len >= b {
+                        out.entry(format!("{:?}", op)).or_default().insert(1 + len - b);
+                    }
+                }
+            }
+        }
+    }
+}
+
 /// Functions with `d` default arguments per level, `k` closures nested in them, `c` captured locals, reading an id
 /// that is NOT capturable when the functions are created (it only exists as an export made later, by another function,
 /// through a map inserted into the exports, or is a prelude name), then CALLED. Every frame on the way down must be created
@@ -2530,6 +2685,73 @@ fn real_main() -> i32 {
         }
     }
     cx.flush();
+    // 4a''. variable-length operands at every width (constant pools of 2^7 / 2^14 entries in front of one program that
+    // uses every instruction with such an operand), and constants of different kinds that collide under a shared key
+    {
+        let mut widths: BTreeMap<String, std::collections::BTreeSet<usize>> = BTreeMap::new();
+        let mut base_value: BTreeMap<String, String> = BTreeMap::new();
+        for (label, prog, n, by_value) in varint_programs() {
+            let compiled = cx.submit(&label, &prog, false);
+            cx.rep.case(&label, true);
+            if !compiled {
+                cx.rep.violation("D", "C05:varint:does-not-compile", json!({"case": label, "pool": n, "input_hex": kvh::hex(prog.as_bytes()),
+                    "note": "the program compiles with an empty constant pool prelude but not behind this one"}));
+                continue;
+            }
+            if let Outcome::Ok(b) = build(&prog) {
+                varint_widths(&b.chunk, &mut widths);
+            }
+            if by_value {
+                let got = match cx.worker.request(&format!("v {}", kvh::hex(prog.as_bytes())), Duration::from_secs(30)) {
+                    Reply::Ok(s) => s,
+                    Reply::Timeout => "timeout".into(),
+                    Reply::Died(x) => format!("died {}", x),
+                };
+                let kind = label.split(':').nth(1).unwrap_or("?").to_string();
+                if n == 0 {
+                    if !got.starts_with("value ") {
+                        cx.rep.violation("K", "C05:varint:reference", json!({"case": label, "observed": got, "program": prog,
+                            "note": "the reference program (empty pool) does not produce a value (harness defect or a defect in one of its constructs)"}));
+                    }
+                    base_value.insert(kind, got);
+                } else if base_value.get(&kind) != Some(&got) {
+                    cx.rep.violation("D", "C05:varint:value", json!({"case": label, "pool": n, "input_hex": kvh::hex(prog.as_bytes()),
+                        "expected": base_value.get(&kind), "observed": got,
+                        "note": "the same program behaves differently when its constant indices need more bytes"}));
+                } else {
+                    cx.rep.bump("varint=ok");
+                }
+            }
+        }
+        cx.flush();
+        // every instruction with a variable-length operand was seen with 1-, 2- and 3-byte operands
+        for op in ["LoadFloat", "LoadInt", "LoadString", "LoadNonLocal", "MakeMap", "SequenceStart", "StringStart", "Access", "TryAccess", "Debug",
+                   "AssertType", "AssertOptionalType", "CheckType", "CheckOptionalType", "StringPush"] {
+            let seen = widths.get(op).cloned().unwrap_or_default();
+            cx.rep.bump(&format!("varint-widths:{}={:?}", op, seen));
+            let need: &[usize] = if op == "MakeMap" { &[1] } else { &[1, 2, 3] };
+            if !need.iter().all(|w| seen.contains(w)) {
+                cx.rep.violation("K", "C05:varint:coverage", json!({"op": op, "widths_seen": format!("{:?}", seen),
+                    "note": "the sweep no longer produces this instruction at every operand width (harness coverage requirement)"}));
+            }
+        }
+        for (label, prog, expect) in constant_collision_programs() {
+            cx.submit(&label, &prog, false);
+            let got = match cx.worker.request(&format!("v {}", kvh::hex(prog.as_bytes())), Duration::from_secs(20)) {
+                Reply::Ok(s) => s,
+                Reply::Timeout => "timeout".into(),
+                Reply::Died(x) => format!("died {}", x),
+            };
+            cx.rep.case(&label, true);
+            if got != expect {
+                cx.rep.violation("D", "C05:const-collision", json!({"case": label, "program": prog, "input_hex": kvh::hex(prog.as_bytes()),
+                    "expected": expect, "observed": got, "note": "literals of different kinds with a colliding key do not keep their own values"}));
+            } else {
+                cx.rep.bump("const-collision=ok");
+            }
+        }
+        cx.flush();
+    }
     // 4b. behavioural must-pass cases of the repaired findings
     for (name, prog, expect) in behaviour_cases() {
         cx.submit(&format!("behaviour:{}", name), &prog, false);
